@@ -112,6 +112,22 @@ func replayObligation(w *World, r *FnResult, or *OblResult, prop string) replayR
 	if len(e.inlineStack) != 0 {
 		return fail("internal: inline stack not empty")
 	}
+	if ssrc, sok, swhy := sessionReplay(w, e, o); sok {
+		// scripted-peer replay (retry closures and the functions around them)
+		path := base + "_test.go.txt"
+		outcome, log := runReplay(w, e, ssrc)
+		rec := note("// replay:     scripted peer built from the solver's model (see engine/replay_session.go)\n// replay outcome: " + outcome + "\n//\n// go test output:\n" + commentOut(log) + "\n")
+		os.WriteFile(path, []byte(rec+ssrc), 0o644)
+		switch outcome {
+		case "violated":
+			return replayResult{Confirmed: true, Path: path, Summary: "real code reproduces the failure (" + firstLine(log) + ")"}
+		case "holds":
+			return replayResult{Path: path, Summary: "the scripted peer built from the model does not reproduce the failure on the real code"}
+		}
+		return replayResult{Path: path, Summary: "replay inconclusive: " + outcome}
+	} else if swhy != "" {
+		return fail(swhy)
+	}
 	ims, ok, why := extractModel(e, o)
 	if !ok {
 		return fail(why)
@@ -668,11 +684,14 @@ func genReplayTest(w *World, e *Encoder, o *Obligation, ims []*inputModel) (stri
 
 // runReplay executes the generated test against the real code.
 func runReplay(w *World, e *Encoder, src string) (outcome, log string) {
-	fn := e.top
+	return runReplayIn(w, e.top.Pkg.Pkg.Path(), src)
+}
+
+func runReplayIn(w *World, pkgPath string, src string) (outcome, log string) {
 	dir := filepath.Join(workDir, fmt.Sprintf("replay%d", time.Now().UnixNano()))
 	os.MkdirAll(dir, 0o755)
 	defer os.RemoveAll(dir)
-	pkgDir := filepath.Join(w.RepoDir, relPkgDir(fn.Pkg.Pkg.Path()))
+	pkgDir := filepath.Join(w.RepoDir, relPkgDir(pkgPath))
 	testFile := filepath.Join(dir, "zz_verif_replay_test.go")
 	os.WriteFile(testFile, []byte(src), 0o644)
 	ov := map[string]map[string]string{"Replace": {filepath.Join(pkgDir, "zz_verif_replay_test.go"): testFile}}
@@ -716,6 +735,8 @@ func runReplay(w *World, e *Encoder, src string) (outcome, log string) {
 		return "violated", short + "\n(the real function did not terminate within 60s)"
 	case strings.Contains(log, "VERIF-REPLAY: holds"):
 		return "holds", short
+	case strings.Contains(log, "VERIF-REPLAY: skipped"):
+		return "skipped", short
 	}
 	if len(log) > 1500 {
 		log = log[:1500]
